@@ -554,3 +554,67 @@ pub fn kernel_op_with_pool(rng: &mut Rng, s: &State, which: Option<usize>, pool:
 fn rng_coin(d: u32) -> bool {
     crate::prng::mix64(u64::from(d) ^ 0x77) % 8 != 0
 }
+
+// ------------------------------------------------------------------------------- polygons (C13)
+
+/// A simple polygon with `n` sides, counter-clockwise. kind 0: strictly convex; 1: star-shaped
+/// around the origin with reflex vertices; 2: like 1 with stronger radius variation.
+pub fn polygon(rng: &mut Rng, n: usize, kind: usize) -> Vec<[f64; 2]> {
+    loop {
+        // sorted angles with a minimum gap
+        let mut gaps: Vec<f64> = (0..n).map(|_| 0.35 + rng.unit()).collect();
+        let tot: f64 = gaps.iter().sum();
+        for g in gaps.iter_mut() {
+            *g *= std::f64::consts::TAU / tot;
+        }
+        let mut ang = rng.unit() * std::f64::consts::TAU;
+        let mut pts = vec![];
+        let (ax, ay) = (1.0 + rng.unit(), 1.0 + rng.unit());
+        for i in 0..n {
+            ang += gaps[i];
+            let r = match kind {
+                0 => 1.0,
+                1 => if rng.chance(0.4) { 0.45 + 0.2 * rng.unit() } else { 1.0 + 0.1 * rng.unit() },
+                _ => 0.3 + 0.9 * rng.unit(),
+            };
+            pts.push([r * ax * ang.cos() + 3.0, r * ay * ang.sin() - 2.0]);
+        }
+        let bits: Vec<crate::mesh::P> = pts.iter().map(|p| crate::mesh::fp(p[0], p[1])).collect();
+        let ok = crate::koracle::polygon_is_simple(&bits)
+            && crate::koracle::general_position(&bits)
+            && crate::mesh::signed_area(&bits) > 1e-3
+            && (kind != 0 || crate::koracle::strictly_convex(&bits));
+        if ok {
+            return pts;
+        }
+    }
+}
+
+/// A mesh made of one polygon (face 0) and triangles glued on a random subset of its sides;
+/// mirrored (clockwise faces) when `cw`.
+pub fn polygon_mesh(rng: &mut Rng, n: usize, kind: usize, cw: bool) -> PolyMesh {
+    let poly = polygon(rng, n, kind);
+    let mut pts = poly.clone();
+    let mut faces = vec![(0..n).collect::<Vec<usize>>()];
+    let p_side = [0.0, 0.4, 1.0][rng.below(3)];
+    for i in 0..n {
+        if !rng.chance(p_side) {
+            continue;
+        }
+        let (a, b) = (poly[i], poly[(i + 1) % n]);
+        // apex on the right of a->b (outside a counter-clockwise polygon), close to the side
+        // (overlaps between neighbour triangles are irrelevant to the map)
+        let (mx, my) = ((a[0] + b[0]) / 2.0, (a[1] + b[1]) / 2.0);
+        let (dx, dy) = (b[0] - a[0], b[1] - a[1]);
+        let h = 0.2 + 0.2 * rng.unit();
+        pts.push([mx + dy * h, my - dx * h]);
+        faces.push(vec![(i + 1) % n, i, pts.len() - 1]);
+    }
+    if cw {
+        // mirroring reverses the geometric orientation of every face; the dart order stays
+        for p in pts.iter_mut() {
+            p[0] = -p[0];
+        }
+    }
+    PolyMesh { pts, faces }
+}
